@@ -162,6 +162,7 @@ def check(ctx):
     K4 = ctx.rule("K4", "algorithm tables: default, compatibility, dispatch, header text")
     ct.check_alg_tables(ctx, K4)
 
+    ct.parse_tables(ctx, K4)
     K5 = ctx.rule("K5", "hash selection: Sha256/384/512 -> SHA-256/384/512 in hash() and native_digest()")
     HF = "acme_common::crypto::BaseHashFunction"
     for fn, pat in (("hash", "openssl::sha::sha%s"), ("native_digest", "openssl::hash::MessageDigest::sha%s")):
